@@ -48,20 +48,24 @@ theorem fmt_fgIndexSet (n : Nat) : fmt Sequences.fgIndexSet_t [n] = [[38, 5, n]]
   simp [fmt, instSeq, instParam, instSub, Sequences.fgIndexSet_t]
 theorem fmt_bgIndexSet (n : Nat) : fmt Sequences.bgIndexSet_t [n] = [[48, 5, n]] := by
   simp [fmt, instSeq, instParam, instSub, Sequences.bgIndexSet_t]
-theorem fmt_ssFgIndexSet (n : Nat) : fmt Sequences.ssFgIndexSet_t [n] = [[38, 5, n]] := by
-  simp [fmt, instSeq, instParam, instSub, Sequences.ssFgIndexSet_t]
-theorem fmt_ssBgIndexSet (n : Nat) : fmt Sequences.ssBgIndexSet_t [n] = [[48, 5, n]] := by
-  simp [fmt, instSeq, instParam, instSub, Sequences.ssBgIndexSet_t]
+theorem fmt_ssFgIndexSet (legacy : Bool) (n : Nat) :
+    fmt (ssT legacy SgrCases.ssEncodeFgIndexMutable SgrCases.ssEncodeFgIndex_t) [n] = [[38, 5, n]] := by
+  simp [ssT, q, SgrCases.ssEncodeFgIndexMutable, SgrCases.ssEncodeFgIndex_t, fmt, instSeq, instParam, instSub, Sequences.ssFgIndexSet_t]
+theorem fmt_ssBgIndexSet (legacy : Bool) (n : Nat) :
+    fmt (ssT legacy SgrCases.ssEncodeBgIndexMutable SgrCases.ssEncodeBgIndex_t) [n] = [[48, 5, n]] := by
+  simp [ssT, q, SgrCases.ssEncodeBgIndexMutable, SgrCases.ssEncodeBgIndex_t, fmt, instSeq, instParam, instSub, Sequences.ssBgIndexSet_t]
 theorem fmt_ulIndexSet (n : Nat) : fmt Sequences.ulIndexSet_t [n] = [[58, 5, n]] := by
   simp [fmt, instSeq, instParam, instSub, Sequences.ulIndexSet_t]
 theorem fmt_fgRGBSet (r g b : Nat) : fmt Sequences.fgRGBSet_t [r, g, b] = [[38, 2, r, g, b]] := by
   simp [fmt, instSeq, instParam, instSub, Sequences.fgRGBSet_t]
 theorem fmt_bgRGBSet (r g b : Nat) : fmt Sequences.bgRGBSet_t [r, g, b] = [[48, 2, r, g, b]] := by
   simp [fmt, instSeq, instParam, instSub, Sequences.bgRGBSet_t]
-theorem fmt_ssFgRGBSet (r g b : Nat) : fmt Sequences.ssFgRGBSet_t [r, g, b] = [[38, 2, r, g, b]] := by
-  simp [fmt, instSeq, instParam, instSub, Sequences.ssFgRGBSet_t]
-theorem fmt_ssBgRGBSet (r g b : Nat) : fmt Sequences.ssBgRGBSet_t [r, g, b] = [[48, 2, r, g, b]] := by
-  simp [fmt, instSeq, instParam, instSub, Sequences.ssBgRGBSet_t]
+theorem fmt_ssFgRGBSet (legacy : Bool) (r g b : Nat) :
+    fmt (ssT legacy SgrCases.ssEncodeFgRGBMutable SgrCases.ssEncodeFgRGB_t) [r, g, b] = [[38, 2, r, g, b]] := by
+  simp [ssT, q, SgrCases.ssEncodeFgRGBMutable, SgrCases.ssEncodeFgRGB_t, fmt, instSeq, instParam, instSub, Sequences.ssFgRGBSet_t]
+theorem fmt_ssBgRGBSet (legacy : Bool) (r g b : Nat) :
+    fmt (ssT legacy SgrCases.ssEncodeBgRGBMutable SgrCases.ssEncodeBgRGB_t) [r, g, b] = [[48, 2, r, g, b]] := by
+  simp [ssT, q, SgrCases.ssEncodeBgRGBMutable, SgrCases.ssEncodeBgRGB_t, fmt, instSeq, instParam, instSub, Sequences.ssBgRGBSet_t]
 theorem fmt_ulRGBSet (r g b : Nat) : fmt Sequences.ulRGBSet_t [r, g, b] = [[58, 2, r, g, b]] := by
   simp [fmt, instSeq, instParam, instSub, Sequences.ulRGBSet_t]
 theorem fmt_ulStyleSet (n : Nat) : fmt Sequences.ulStyleSet_t [n] = [[4, n]] := by
@@ -470,13 +474,13 @@ theorem encodeDelta_correct (legacy : Bool) (p n : Style) (hn : n.ulStyle ≤ 5)
   rw [part_uls p.ulStyle n.ulStyle _ rfl hn]
   rfl
 
-theorem ssDelta_correct (p n : Style) (hn : n.ulStyle ≤ 5) :
-    apply (shown p) (ssDelta p n) = shown n := by
+theorem ssDelta_correct (legacy : Bool) (p n : Style) (hn : n.ulStyle ≤ 5) :
+    apply (shown p) (ssDelta legacy p n) = shown n := by
   unfold ssDelta
   simp only [apply_append]
-  rw [part_fg _ _ (fun n t => by rw [fmt_ssFgIndexSet]; rfl) (fun r g b t => by rw [fmt_ssFgRGBSet]; rfl)
+  rw [part_fg _ _ (fun n t => by rw [fmt_ssFgIndexSet legacy]; rfl) (fun r g b t => by rw [fmt_ssFgRGBSet legacy]; rfl)
     p.fg n.fg n.fg (col n.fg) _ (fun h => by rw [← h]; rfl) (fun _ => rfl)]
-  rw [part_bg _ _ (fun n t => by rw [fmt_ssBgIndexSet]; rfl) (fun r g b t => by rw [fmt_ssBgRGBSet]; rfl)
+  rw [part_bg _ _ (fun n t => by rw [fmt_ssBgIndexSet legacy]; rfl) (fun r g b t => by rw [fmt_ssBgRGBSet legacy]; rfl)
     p.bg n.bg n.bg (col n.bg) _ (fun h => by rw [← h]; rfl) (fun _ => rfl)]
   rw [part_ul p.ul n.ul n.ul (col n.ul) _ (fun h => by rw [← h]; rfl) (fun _ => rfl)]
   rw [part_attr p.attr n.attr _ rfl]
@@ -1201,7 +1205,7 @@ theorem colour_range_gen (P : Seq → Prop) (hP : ∀ x, emittable x = true → 
   · rw [h] at hx; simp only [List.mem_singleton] at hx; subst hx
     exact hrgb r g b hr hg hb
 
-theorem ssDelta_range (p n : Style) (hn : n.ulStyle ≤ 5) : ∀ x ∈ ssDelta p n, emittable x = true := by
+theorem ssDelta_range (legacy : Bool) (p n : Style) (hn : n.ulStyle ≤ 5) : ∀ x ∈ ssDelta legacy p n, emittable x = true := by
   intro x hx
   unfold ssDelta at hx
   simp only [List.mem_append] at hx
@@ -1209,14 +1213,14 @@ theorem ssDelta_range (p n : Style) (hn : n.ulStyle ≤ 5) : ∀ x ∈ ssDelta p
   · split at h
     · exact colour_range_gen (fun x => emittable x = true) (fun _ h => h) _ _ _ _ _ 30 90 (by simp) (by simp)
         (by rw [fmt_fgReset]; decide) fmt_fgSet fmt_fgBrightSet
-        (fun n hn => by rw [fmt_ssFgIndexSet]; exact em_idx 38 n (by simp) hn)
-        (fun r g b hr hg hb => by rw [fmt_ssFgRGBSet]; exact em_rgb 38 r g b (by simp) hr hg hb) _ x h
+        (fun n hn => by rw [fmt_ssFgIndexSet legacy]; exact em_idx 38 n (by simp) hn)
+        (fun r g b hr hg hb => by rw [fmt_ssFgRGBSet legacy]; exact em_rgb 38 r g b (by simp) hr hg hb) _ x h
     · cases h
   · split at h
     · exact colour_range_gen (fun x => emittable x = true) (fun _ h => h) _ _ _ _ _ 40 100 (by simp) (by simp)
         (by rw [fmt_bgReset]; decide) fmt_bgSet fmt_bgBrightSet
-        (fun n hn => by rw [fmt_ssBgIndexSet]; exact em_idx 48 n (by simp) hn)
-        (fun r g b hr hg hb => by rw [fmt_ssBgRGBSet]; exact em_rgb 48 r g b (by simp) hr hg hb) _ x h
+        (fun n hn => by rw [fmt_ssBgIndexSet legacy]; exact em_idx 48 n (by simp) hn)
+        (fun r g b hr hg hb => by rw [fmt_ssBgRGBSet legacy]; exact em_rgb 48 r g b (by simp) hr hg hb) _ x h
     · cases h
   · split at h
     · exact ul_range _ x h
@@ -1268,10 +1272,10 @@ theorem ss_fold_refines (hc : Covers ssCfg) (l : List Seq) (hl : ∀ x ∈ l, em
     · simp only [foldC, h1, h2]
     · rw [e2, e1]; rfl
 
-theorem ss_delta_roundtrip (hc : Covers ssCfg) (s n : Style) (hs : s.wf) (hn : n.wf) :
-    foldC (ssSeq {}) s (ssDelta s n) = .ok n := by
-  obtain ⟨s', h, w, e⟩ := ss_fold_refines hc _ (ssDelta_range s n hn.ulStyle) s hs
-  rw [ssDelta_correct s n hn.ulStyle] at e
+theorem ss_delta_roundtrip (hc : Covers ssCfg) (legacy : Bool) (s n : Style) (hs : s.wf) (hn : n.wf) :
+    foldC (ssSeq {}) s (ssDelta legacy s n) = .ok n := by
+  obtain ⟨s', h, w, e⟩ := ss_fold_refines hc _ (ssDelta_range legacy s n hn.ulStyle) s hs
+  rw [ssDelta_correct legacy s n hn.ulStyle] at e
   rw [h, shown_inj s' n w hn e]
 
 theorem ssParseToks_sgrs {γ : Type} (f : Style → Seq → Except Panic Style) (l : List Seq) (rest : List (Tok Seq γ))
